@@ -13,6 +13,18 @@ ALLOWED_AXIOMS = {
 }
 
 PROPS = {
+    "C13": {
+        "n": {"quick": 600, "thorough": 8000},
+        "shards": 16,
+        "trusted": [
+            "hook verifPublishPoint (one inserted call in publishIfCurrent, no-op without -tags verif) lets the harness choose the order in which analyses reach the publish point",
+            "granularity: the publish point; interleavings inside publishIfCurrent are serialised by publishMu (read from the code), the Go scheduler and memory model are not modelled",
+        ],
+        "assumptions": [
+            "diagnostics are a function of the content (contents with map-order dependent messages are excluded from this check; that is C15)",
+        ],
+        "explanation": "C13_statement proved for all traces and all diagnostics functions on the guarded machine; refutation of the unguarded machine kept; tie: every assignment of bursts of 2..4 changes to two documents x every release permutation (440 cases, exhaustive) plus random interleaved traces",
+    },
     "C01": {
         "n": {"quick": 2500, "thorough": 60000},
         "shards": 16,
